@@ -4,6 +4,7 @@ from hypothesis import strategies as st
 import pyModeS as pms
 from ref import cpr, frames
 from vlib import gen
+from vlib import variants
 from vlib.core import Leg, call
 from checks import cprcommon as cg
 
@@ -70,6 +71,8 @@ def chk_ref(case, note):
         # a single-precision reference (receiver position kept in a float32 array): its rounding error (< 1e-5 deg) keeps it inside the box
         refs.append((np.float32(r2[0]), np.float32(r2[1])))
     dstep = e["dlon_step"] * (1 if not surface else 1)  # surface: 19-bit bins of a 360/ni zone == 17-bit bins of 90/ni
+    if b & 2:
+        variants.prelude(pms, msg)   # helpers on the same string, and other message types of the same aircraft, decoded first
     for name, fn in fns:
         outs = []
         if b & 1:  # the identical string decoded earlier against a reference some zones away (another aircraft position estimate, a second receiver)
